@@ -106,6 +106,9 @@ FRAGMENTS = [
 ENDINGS = ['solved', 'solved-verbose', 'failed', 'exception', 'abandoned']
 
 
+_HELD = []      # earlier models the "user" still references (released in the middle of B's second construction)
+
+
 def run_fragment(env, name, spec, ending, backend, idx):
     """build (and maybe solve) another model; its parameters are symbolic too (prefixed)"""
     if env.sym:
@@ -114,6 +117,7 @@ def run_fragment(env, name, spec, ending, backend, idx):
     sub = _PrefixEnv(env, "A%d_" % idx)
     try:
         m = pipeline.build(sub, spec)
+        _HELD.append(m)
         if ending == 'exception':
             from PEPit import Point
             m.pep.set_initial_condition(Point() ** 2 <= 1)
@@ -164,6 +168,7 @@ def prog(env, case):
     elif backend == 'mosek':
         pipeline.enable_mosek_emulator()
     # fresh process: B first
+    del _HELD[:]
     m1 = pipeline.build(env, bspec)
     t1, e1 = pipeline.safe_solve(env, m1.pep, tag + ":fresh", wrapper=backend, verbose=0)
     if e1:
@@ -188,8 +193,21 @@ def prog(env, case):
         name, spec = FRAGMENTS[fi]
         trace.append("%s/%s" % (name, ENDINGS[ei]))
         run_fragment(env, name, spec, ENDINGS[ei], backend, k)
-    # B again
-    m2 = pipeline.build(env, bspec)
+    # B again.  With release='mid' the user's last references to all earlier problems (B#1 and the fragments) are dropped
+    # while B#2 is half built, and the garbage collector runs there - a finalizer of an old problem must not disturb it.
+    bspec2 = dict(bspec)
+    if case.get('release') == 'mid':
+        _HELD.append(m1)
+        m1 = None
+
+        def release():
+            import gc
+            del _HELD[:]
+            gc.collect()
+        bspec2['mid_build'] = release
+    else:
+        del _HELD[:]
+    m2 = pipeline.build(env, bspec2)
     t2, e2 = pipeline.safe_solve(env, m2.pep, tag + ":after[%s]" % ",".join(t.split('/')[0] for t in trace[:1]),
                                  wrapper=backend, verbose=case.get('verbose2', 0))
     if e2:
@@ -227,6 +245,13 @@ def cases(tier):
                     continue
                 cs.append(dict(id="%s-%s-A%d" % (bname, be, fi), bname=bname, bspec=bspec, backend=be, k=k, forced=[fi],
                                input_zero_tests='generic', output_branches='first', verbose2=fi % 2))
+    for bname, bspec in bm:
+        for be in ('cvxpy', 'mosek'):
+            if tier == 'quick' and (bname, be) not in (('partition', 'cvxpy'), ('lmi', 'cvxpy'), ('gd-cons', 'cvxpy'),
+                                                       ('partition', 'mosek')):
+                continue
+            cs.append(dict(id="%s-%s-A0-release-mid" % (bname, be), bname=bname, bspec=bspec, backend=be, k=k, forced=[0],
+                           input_zero_tests='generic', output_branches='first', verbose2=0, release='mid'))
     return cs
 
 
